@@ -416,6 +416,10 @@ WRITE_FACT_PROBES = {
     "DerefRc": WC_HEAD + f"pub fn f<'a, 'gc>(w: &'a Write<std::rc::Rc<{PT}>>) -> &'a Write<{PT}> {{ w.as_deref() }}\n",
     "DerefArc": WC_HEAD + f"pub fn f<'a, 'gc>(w: &'a Write<std::sync::Arc<{PT}>>) -> &'a Write<{PT}> {{ w.as_deref() }}\n",
     "IndexUnique": WC_HEAD + f"pub fn f<'a, 'gc>(w: &'a Write<Vec<{PT}>>) -> &'a Write<{PT}> {{ &w[0] }}\n",
+    **{f"IndexUserImpl_{k}": WC_HEAD + "use std::ops::Index;\n" + f"pub type Slot<'gc> = {PT};\npub struct Alias<'a, 'gc>(pub &'a Slot<'gc>);\n"
+       "impl<'a, 'gc> Index<Alias<'a, 'gc>> for [Slot<'gc>] { type Output = Slot<'gc>; fn index(&self, i: Alias<'a, 'gc>) -> &Slot<'gc> { todo!() } }\n"
+       + f"pub fn f<'a, 'gc>(w: &'a Write<{ty}>, i: Alias<'a, 'gc>) -> &'a Write<Slot<'gc>> {{ &w[i] }}\n"
+       for k, ty in (("array", "[Slot<'gc>; 1]"), ("slice", "[Slot<'gc>]"), ("vec", "Vec<Slot<'gc>>"))},
     "FieldThroughDeref": WC_HEAD + f"pub struct S<'gc> {{ pub f: {PT} }}\npub fn f<'a, 'gc>(w: &'a Write<Box<S<'gc>>>) -> &'a Write<{PT}> {{ field!(w, S, f) }}\n",
     "FieldThroughRef": WC_HEAD + f"pub struct S<'gc> {{ pub f: {PT} }}\npub fn f<'a, 'b, 'gc>(w: &'a Write<&'b S<'gc>>) -> &'a Write<{PT}> {{ field!(w, S, f) }}\n",
     "UnlockNoWrite": WC_HEAD + f"pub fn f<'a, 'gc>(l: &'a {PT}) -> &'a RefCell<Option<Gc<'gc, u32>>> {{ l.unlock_unchecked() }}\n",
@@ -434,7 +438,10 @@ FORBIDDEN_FACTS = {"FromStaticAny": "Write references cannot be forged for data 
                    "FieldThroughRef": "field projection cannot pass through a dereference (&)",
                    "UnlockNoWrite": "unlocking needs a Write reference (unlock_unchecked must be unsafe)",
                    "UnlockNoWrite2": "unlocking needs a Write reference (as_ref_cell must be unsafe)",
-                   "CellHoldsGc": "plain Cell cannot hold pointers", "RefCellHoldsGc": "plain RefCell cannot hold pointers"}
+                   "CellHoldsGc": "plain Cell cannot hold pointers", "RefCellHoldsGc": "plain RefCell cannot hold pointers",
+                   "IndexUserImpl_array": "Write references cannot be forged: indexing a Write<[T; N]> with a client-written Index impl",
+                   "IndexUserImpl_slice": "Write references cannot be forged: indexing a Write<[T]> with a client-written Index impl",
+                   "IndexUserImpl_vec": "Write references cannot be forged: indexing a Write<Vec<T>> with a client-written Index impl"}
 REQUIRED_FACTS = ["FromMut", "DerefBox", "DerefVec", "IndexUnique", "AsWriteOption", "FieldDirect", "UnlockWithWrite"]
 
 EXPLOIT_PRELUDE = """
@@ -559,6 +566,7 @@ def check_writecap(tier):
     consts = {k: ("TRUE" if facts[k] else "FALSE") for k in
               ("FromMut", "FromStaticAny", "AssumeSafe", "DerefRef", "DerefBox", "DerefVec", "DerefRc", "DerefArc", "IndexUnique",
                "AsWriteOption")}
+    consts["IndexUserImpl"] = "TRUE" if any(facts[f"IndexUserImpl_{k}"] for k in ("array", "slice", "vec")) else "FALSE"
     consts["FieldThroughDeref"] = "TRUE" if (facts["FieldThroughDeref"] or facts["FieldThroughRef"]) else "FALSE"
     consts["UnlockNoWrite"] = "TRUE" if (facts["UnlockNoWrite"] or facts["UnlockNoWrite2"]) else "FALSE"
     consts["CellHoldsGc"] = "TRUE" if (facts["CellHoldsGc"] or facts["RefCellHoldsGc"]) else "FALSE"
@@ -644,6 +652,41 @@ AUTO = {"Gc": "Gc<'static, i32>", "GcWeak": "GcWeak<'static, i32>", "Mutation": 
         "DynamicRootSet": "DynamicRootSet<'static>", "Arena": "A", "WriteOfGc": "Write<Gc<'static, i32>>", "GcRef": "&'static Gc<'static, i32>",
         "Metrics": "gc_arena::metrics::Metrics", "MarkedArena": "gc_arena::arena::MarkedArena<'static, Rootable![R<'_>]>"}
 
+SLOT_VARIANCE = {   # writable slots must be invariant in the value type (both directions rejected)
+    "GcBuilder": "gc_arena::GcBuilder<'gc, Static<&{l} i32>>",
+    "GcSliceBuilder": "gc_arena::GcSliceBuilder<'gc, Static<&{l} i32>>",
+    "GcSliceWithHeaderBuilder_header": "gc_arena::GcSliceWithHeaderBuilder<'gc, Static<&{l} i32>, u8>",
+    "GcSliceWithHeaderBuilder_element": "gc_arena::GcSliceWithHeaderBuilder<'gc, u8, Static<&{l} i32>>",
+}
+BUILDER_EXPLOIT = """
+use gc_arena::{Arena, Collect, Gc, GcBuilder, Rootable, Static};
+use std::{cell::Cell, rc::Rc};
+pub struct Tok(Rc<Cell<bool>>, u32);
+impl Drop for Tok { fn drop(&mut self) { self.0.set(true); self.1 = 0xDEAD; } }
+gc_arena::static_collect!(Tok);
+#[derive(Collect)]
+#[collect(no_drop)]
+struct Root<'gc> { obj: Option<Gc<'gc, Tok>>, r: Option<Gc<'gc, &'gc Tok>> }
+fn main() {
+    let flag = Rc::new(Cell::new(false));
+    let f2 = flag.clone();
+    let mut arena = Arena::<Rootable![Root<'_>]>::new(|mc| Root { obj: Some(Gc::new(mc, Tok(f2, 7))), r: None });
+    arena.mutate_root(|mc, root| {
+        let b: GcBuilder<'_, Static<&'static Tok>> = GcBuilder::new();
+        let b: GcBuilder<'_, Static<&Tok>> = b;
+        let b = b.unwrap_static();
+        let r: &Tok = Gc::as_ref(root.obj.unwrap());
+        root.r = Some(b.write(mc, r));
+        root.obj = None;
+    });
+    arena.finish_cycle();
+    arena.finish_cycle();
+    let dropped = flag.get();
+    println!("referent destructed while a stored &'gc reference to it is reachable: {dropped}");
+    std::process::exit(if dropped { 3 } else { 0 });
+}
+"""
+
 ESCAPES = {
     # every one of these must be REJECTED
     "return_gc_from_mutate": "pub fn f(a: &A) { let _g = a.mutate(|mc, root| root.p); }",
@@ -718,6 +761,19 @@ def check_brand(tier):
         if ok:
             contra_any = True
             viols.append({"rule": "contravariant:" + name, "what": f"{name} is contravariant in the brand lifetime", "program": os.path.join(pdir, 'contra_' + name + '.rs')})
+    slot_co = False
+    for name, ty in SLOT_VARIANCE.items():
+        ok, _ = probe("slotco_" + name, f"pub fn co<'gc, 'a: 'b, 'b>(x: {ty.format(l=chr(39) + 'a')}) -> {ty.format(l=chr(39) + 'b')} {{ x }}", False)
+        ok2, _ = probe("slotcontra_" + name, f"pub fn contra<'gc, 'a: 'b, 'b>(x: {ty.format(l=chr(39) + 'b')}) -> {ty.format(l=chr(39) + 'a')} {{ x }}", False)
+        if ok or ok2:
+            slot_co = True
+            viols.append({"rule": "slot-variance:" + name, "what": f"the writable slot {name} is not invariant in its value type",
+                          "program": os.path.join(pdir, 'slotco_' + name + '.rs')})
+    compiled, rc, out, path = run_program(BUILDER_EXPLOIT, "builder_covariance", os.path.join(d, "programs"))
+    results["program_builder_covariance"] = {"accepted": compiled, "expected_accepted": False}
+    if compiled and rc != 0:
+        viols.append({"rule": "exploit:builder_covariance", "what": "a &'gc T was stored in the arena heap through a covariant builder and dangled: " + out.strip()[-200:],
+                      "program": path})
     ok, diag = probe("co_twin_plain_ref", "pub fn co<'a: 'b, 'b>(x: &'a i32) -> &'b i32 { x }", True)
     if not ok:
         raise ToolError("the covariance twin is rejected: the variance probes are broken: " + diag)
@@ -748,7 +804,8 @@ def check_brand(tier):
     returns = [n for n in escaped if "return" in n or "err_with" in n]
     refs = [n for n in escaped if n.startswith("root_with")]
     facts = {"Covariant": co_any, "Contravariant": contra_any, "SendOrSync": send_any, "HigherRanked": not capture,
-             "RetNamesBrand": bool(returns), "RefCollect": bool(refs), "FetchUnchecked": "dynamic_root_fetch_unbranded" in escaped and False}
+             "RetNamesBrand": bool(returns), "RefCollect": bool(refs), "FetchUnchecked": "dynamic_root_fetch_unbranded" in escaped and False,
+             "SlotCovariant": slot_co}
     consts = {k: ("TRUE" if v else "FALSE") for k, v in facts.items()}
     r = run_tlc("Brand", gcv.cfg_text(spec="Spec", constants=consts, invariants=["NoEscape"], constraints=["Bounded"]), "brand", d,
                 workers=2, timeout=300, xmx="2g")
